@@ -3,7 +3,7 @@ import re
 import traceback
 from typing import List
 
-from glom import (glom, T, Coalesce, Pipe, Spec, Auto, Switch, Or, M, GlomError, Val, Check, Match, CoalesceError, MatchError,
+from glom import (glom, T, S, Coalesce, Pipe, Spec, Auto, Switch, Or, M, GlomError, Val, Check, Match, CoalesceError, MatchError,
                   PathAccessError, Path)
 from glom.core import bbrepr, TRACE_WIDTH, _format_trace_value, format_target_spec_trace
 import glom.core as gc
@@ -25,7 +25,7 @@ META = {
                    'appear with their X lines, forgiven branches do not. _format_trace_value is checked separately with symbolic '
                    'maxlen / repr length, and format_target_spec_trace with symbolic width.',
     'bounds': {
-        'quick': {'skeleton depth': 2, 'node kinds': 9, 'fault kinds': 4, 'fault position p': 'symbolic', 'targets': 'short, long (truncated), non-ASCII',
+        'quick': {'skeleton depth': 2, 'node kinds': 9, 'fault kinds': '7 (callable raises Boom / KeyError / a class with its own __str__, missing key, Match reject, Check fail, unbound scope variable)', 'fault position p': 'symbolic', 'targets': 'short, long (truncated), non-ASCII',
                   'width': '50..120 via format_target_spec_trace(width=)', 'maxlen': '14..120'},
         'thorough': {'skeleton depth': '2 (all child kinds) and 3 (chains)'},
     },
@@ -45,12 +45,19 @@ PLANT = [None, None]
 RECEIVED = {}
 FAILED = []
 FAULT = [0]
-FAIL_SPECS = [None, T['nope'], Match('never-equal-to-this'), Check(equal_to='never-equal-to-this')]
+FAIL_SPECS = [None, T['nope'], Match('never-equal-to-this'), Check(equal_to='never-equal-to-this'), S['never_bound'], None, None]
+
+
+class StrBoom(Exception):
+    """an error class that renders itself (as KeyError, OSError, ... and many application errors do)"""
+    def __str__(self):
+        return 'custom text of %s' % (self.args,)
 
 
 class Leaf:
-    """fails when its evaluation index equals a planted index; fault kind 0 raises itself, kinds 1-3 evaluate a failing
-    sub-spec (missing key / Match reject / Check fail) so that the innermost failing spec is that sub-spec"""
+    """fails when its evaluation index equals a planted index; fault kinds 0, 5, 6 raise themselves (Boom, KeyError, an error
+    class with its own __str__), kinds 1-4 evaluate a failing sub-spec (missing key / Match reject / Check fail / unbound
+    scope variable) so that the innermost failing spec is that sub-spec"""
     def __init__(self, tag):
         self.tag = tag
 
@@ -62,6 +69,10 @@ class Leaf:
             FAILED.append(self.tag)
             if FAULT[0] == 0:
                 raise Boom('planted at %s' % self.tag)
+            if FAULT[0] == 5:
+                raise KeyError('planted at %s' % self.tag)
+            if FAULT[0] == 6:
+                raise StrBoom('planted at %s' % self.tag)
             return scope[gc.glom](target, FAIL_SPECS[FAULT[0]], scope)
         return target
 
@@ -191,13 +202,19 @@ def trace_shape(root: int, c0: int, c1: int, p: int, fault: int, tkind: int) -> 
     # last line: format_exception_only of the original error
     orig = err.__dict__.get('_GlomError__wrapped', err)
     want_last = ''.join(traceback.format_exception_only(type(orig), orig))[:-1].splitlines()[-1]
-    if fault == 0:
-        if not (lines[-1].endswith('Boom: planted at %s' % FAILED[0])):
-            return fail(why='last line must name the original error', last=lines[-1])
+    if 'str() failed' in s:
+        return fail(why='the message of the original error could not be rendered', last=lines[-1])
+    if fault in (0, 5, 6):
+        want_end = ['Boom: planted at %s' % FAILED[0], None, None, None, None, "KeyError: 'planted at %s'" % FAILED[0],
+                    "StrBoom: custom text of ('planted at %s',)" % FAILED[0]][fault]
+        if not (lines[-1].endswith(want_end)):
+            return fail(why='last line must name the original error', last=lines[-1], want=want_end)
     else:
-        cls = ['', 'PathAccessError', 'MatchError', 'CheckError'][fault]
+        cls = ['', 'PathAccessError', 'MatchError', 'CheckError', 'PathAccessError'][fault]
         if cls not in lines[-1]:
             return fail(why='last line must name the original error class', last=lines[-1], cls=cls)
+        if fault == 4 and 'never_bound' not in lines[-1]:
+            return fail(why='last line must carry the message of the original error', last=lines[-1])
     # ancestors in order as a subsequence of the Spec lines; last Spec line = innermost failing spec
     failing_tag = FAILED[0]
     chain = []
@@ -206,7 +223,7 @@ def trace_shape(root: int, c0: int, c1: int, p: int, fault: int, tkind: int) -> 
         chain.append(ctx.spec_of[cur])
         cur = ctx.parent[cur]
     chain.reverse()
-    if fault != 0:
+    if fault in (1, 2, 3, 4):
         chain.append(FAIL_SPECS[fault])
     if fault == 2:
         chain.append('never-equal-to-this')       # in Match mode the literal inside Match(...) is the innermost failing spec
@@ -537,8 +554,8 @@ def obligations(tier):
     kinds = kinds_q if q else list(range(9)) + [LEAF]
     ck = '(' + ' or '.join('{v} == %d' % k for k in kinds) + ')'
     for root in range(9):
-        for fault in range(4):
-            if q and fault != (root % 4) and fault != 0:
+        for fault in range(7):
+            if q and fault != (root % 7) and fault != 0 and fault != ((root + 3) % 7):
                 continue
             fx = {'root': root, 'fault': fault, 'tkind': (root + fault) % 3}
             pre = ck.format(v='c0') + ' and ' + ck.format(v='c1') + ' and 0 <= p <= 4'
